@@ -2039,6 +2039,10 @@ class ReferenceManager:
         if new_value is None:
             new_value = old_value
 
+        if (spec is not None and new_value is not old_value
+                and self.has_spec(new_value)):
+            raise ValueError("new value already has an IOSpec in the model")
+
         if spec is not None:
             self._manager.update_spec_value(spec, new_value, kwargs)
             new_value = spec.value
@@ -2054,7 +2058,7 @@ class ReferenceManager:
             newrefs.append(impl.own_refs[name])
 
         self._valid_to_refs.pop(prev_id)
-        self._valid_to_refs[id(new_value)] = newrefs
+        self._valid_to_refs.setdefault(id(new_value), []).extend(newrefs)
 
     @staticmethod
     def _impl_change_ref(impl, name, value, refmode):
